@@ -5229,20 +5229,25 @@ class TLSConnection(TLSRecordLayer):
                 raise TLSFaultError(str(alert))
             else:
                 pass
-        except TLSIllegalParameterException as exc:
+        except (TLSIllegalParameterException, TLSDecodeError,
+                TLSDecryptionFailed) as exc:
             # protocol errors raised directly by the handshake code (not under
             # _getMsg): tell the peer before closing
-            for result in self._sendError(AlertDescription.illegal_parameter,
-                                          str(exc)):
-                yield result
-        except TLSDecodeError as exc:
-            for result in self._sendError(AlertDescription.decode_error,
-                                          str(exc)):
-                yield result
-        except TLSDecryptionFailed as exc:
-            for result in self._sendError(AlertDescription.decrypt_error,
-                                          str(exc)):
-                yield result
+            if isinstance(exc, TLSIllegalParameterException):
+                descr = AlertDescription.illegal_parameter
+            elif isinstance(exc, TLSDecodeError):
+                descr = AlertDescription.decode_error
+            else:
+                descr = AlertDescription.decrypt_error
+            try:
+                for result in self._sendError(descr, str(exc)):
+                    yield result
+            except TLSLocalAlert:
+                raise
+            except:
+                # the alert could not be sent: still close the connection
+                self._shutdown(False)
+                raise
         except:
             self._shutdown(False)
             raise
